@@ -1790,7 +1790,8 @@ class Result:
         return self
 
     def _finished(self, x:Sequence[str], y:str, l:Sequence[str], p:Sequence[str]) -> 'Result':
-        only_finished = self._filter_fin('min' if x == 'index' else None, l, p)
+        #x may be given as a one item list
+        only_finished = self._filter_fin('min' if x == 'index' or list(x) == ['index'] else None, l, p)
         if len(only_finished.learners) == 0:
             raise CobaException(f"This result does not contain a {p} that has been finished for every {l}.")
         return only_finished
